@@ -312,7 +312,9 @@ def _delim_follow_test(e, src, dlm):
         if isinstance(l, ast.Call) and isinstance(l.func, ast.Attribute) and l.func.attr == 'charAt':
             return 'char'
         if isinstance(l, ast.Subscript) and isinstance(l.slice, ast.Slice):
-            return 'width'
+            # a slice is delimiter-wide only if one of its bounds is computed from len(dlm)
+            txt = node_text(l.slice, 120)
+            return 'width' if 'len({})'.format(dlm) in txt else 'char'
         if isinstance(l, ast.Call) and isinstance(l.func, ast.Attribute) and l.func.attr in ('substr', 'substring', 'slice') and dlm in names_in(l):
             return 'width'
     if isinstance(e, ast.Call) and isinstance(e.func, ast.Attribute) and e.func.attr in ('startswith', 'startsWith', 'endswith', 'endsWith') and e.args and is_name(e.args[0], dlm):
